@@ -222,18 +222,30 @@ def fault_plan(p, feat, hexe, cdir):
     try:
         out = corr.parse_out(r.stdout)
         ops = gen.fault_ops(p)
+        def get(cid):
+            for k2, v2 in out.items():
+                if k2.split(' ')[0] == cid:
+                    return v2
+            return None
+        def ok(o):
+            return o[3] is not None and o[3].startswith('OK')
+        base = {}
         for i, a in enumerate(ops):
-            c = out.get("q%d" % i) or out.get("q%d panel=%s" % (i, p.name))
-            if c is None:
-                for k2, v2 in out.items():
-                    if k2.split(' ')[0] == "q%d" % i:
-                        c = v2
+            c = get("q%d" % i)
             if not c:
                 continue
-            if 'new' not in plan and c[0][3] is not None and c[0][3].startswith('OK'):
+            if 'new' not in plan and ok(c[0]):
                 plan['new'] = gen.transfer_points(c[0][2])
-            if len(c) > 1 and c[1][3] is not None and c[1][3].startswith('OK'):
+            if len(c) > 1 and ok(c[1]):
                 plan[' '.join(a)] = gen.transfer_points(c[1][2])
+                base[i] = c[1][2]
+        for j, pre in enumerate(gen.fault_prefixes(p)):
+            for i, a in enumerate(ops):
+                c = get("r%d_%d" % (j, i))
+                if not c or len(c) != 2 + len(pre) or not all(ok(o) for o in c):
+                    continue
+                if c[-1][2] != base.get(i):
+                    plan['P%d|%s' % (j, ' '.join(a))] = gen.transfer_points(c[-1][2], cap=60)
     except Exception as e:          # a broken probe must not hide faults: fall back to the fixed list
         plan = {}
     _PLANS[key] = plan
